@@ -95,7 +95,7 @@ Qed.
 Lemma schema_refs_of_type : forall t, wf_sty t ->
   forall x, In x (schema_refs (export_type fixed3 ido (map_type ido t))) -> In x (ty_refs t) /\ x <> 0%N.
 Proof.
-  induction t as [op|op p|op items|op e IH|op e IH|op e IH|op k v IHk IHv|op r|op mk fields IH|op fields IH|op ap ty|op alts] using sty_ind';
+  induction t as [op|op p|op items|op e IH|op e IH|op e IH|op k v IHk IHv|op r|op mk fields IH|op fields IH|op ap ty|op alts|op] using sty_ind';
     intros Hwf x Hin.
   - vm_compute in Hin. destruct Hin.
   - (* primitive: whatever arm its name selects, a type without reference, items, properties has no $ref *)
@@ -129,6 +129,7 @@ Proof.
     cbn [map_type] in Hin. rewrite schema_refs_eq in Hin. cbn in Hin. cbn [ty_refs].
     destruct (ty =? 0)%N eqn:E; cbn in Hin; [destruct Hin|].
     split; [exact Hin|]. destruct Hin as [<-|[]]. apply N.eqb_neq, E.
+  - vm_compute in Hin. destruct Hin.
   - vm_compute in Hin. destruct Hin.
 Qed.
 
